@@ -375,6 +375,7 @@ class World:
         self.dtype_sensitive = 0
         self.harness_error = None
         self.signaled = False
+        self.arrived = 0
         self.corrupt = {}      # file name -> persistent ("flip", bit) corruption
         self.live_args = []
         self.handles = []
@@ -425,6 +426,10 @@ class World:
             return lambda: self.dtype_sensitive == 0
         if k == "wait":
             return lambda: self.signaled
+        if k == "barrier":
+            self.arrived += 1          # block_pred is evaluated once per op
+            n = len(self.plan["programs"])
+            return lambda: self.arrived >= n
         return None
 
     # ---- invariants evaluated while the run proceeds ----------------------------
@@ -530,6 +535,9 @@ class World:
         rec["outcome"] = "ok"
 
     def op_wait(self, cl, op, rec):
+        rec["outcome"] = "ok"
+
+    def op_barrier(self, cl, op, rec):
         rec["outcome"] = "ok"
 
     def op_drop(self, cl, op, rec):
